@@ -300,6 +300,13 @@ fn probe_bits<T: Sc>(cfg: &CfgJ, rep: &mut Report) {
             rep.check("C16", ok, 0.0, || det("a function did not receive the bit patterns of the current parameters", String::new()));
         }
     }
+    // derivative indices far out of range: an error value, never a panic (nor a wrap-around)
+    for k in [usize::MAX, usize::MAX - 1, usize::MAX / 2 + 1, 1usize << 32, p] {
+        let r = catch_unwind(AssertUnwindSafe(|| m.eval_partial_deriv(k).map(|d| (d.nrows(), d.ncols())).map_err(|e| err_kind(&e))));
+        rep.check("C17", matches!(r, Ok(Err("DerivativeIndexOutOfBounds"))), 0.0, || {
+            json!({"cfg": cfg, "scalar": T::NAME, "ctx": "far out of range derivative index", "index": k.to_string(), "what": "not rejected with DerivativeIndexOutOfBounds", "got": format!("{r:?}")})
+        });
+    }
     rep.count("bit_pattern_probes", 1);
 }
 
